@@ -107,6 +107,10 @@ type tcase struct {
 	// state of the OUTPUT PATH before the judged export: "" / fresh, shorter, longer-bytes, longer-export, ro; viaCLI: written by cli.Flags.WriteScanResults
 	pstate string
 	viaCLI bool
+	// cfg: index into sbomConfigs (document name / namespace / creators, component name / version / authors: --spdx-* / --cdx-* flags);
+	// fname: index into the file names the importer accepts for the format; trunc: the written file is cut short before it is read back
+	cfg, fname int
+	trunc      bool
 	pkgs   []pk
 }
 
@@ -266,13 +270,22 @@ func must(err error) {
 func (c tcase) line() string {
 	var sb strings.Builder
 	ftok := c.format
-	if c.pstate != "" || c.viaCLI {
+	if c.pstate != "" || c.viaCLI || c.cfg != 0 || c.fname != 0 || c.trunc {
 		st := c.pstate
 		if st == "" {
 			st = "fresh"
 		}
 		if c.viaCLI {
 			st += ",cli"
+		}
+		if c.cfg != 0 {
+			st += fmt.Sprintf(",cfg%d", c.cfg)
+		}
+		if c.fname != 0 {
+			st += fmt.Sprintf(",n%d", c.fname)
+		}
+		if c.trunc {
+			st += ",trunc"
 		}
 		ftok += "@" + st // <format>@<state of the output path>[,cli]
 	}
@@ -341,8 +354,16 @@ func parseCase(l string) tcase {
 			case "cli":
 				c.viaCLI = true
 			case "fresh", "":
+			case "trunc":
+				c.trunc = true
 			default:
-				c.pstate = x
+				if strings.HasPrefix(x, "cfg") {
+					c.cfg, _ = strconv.Atoi(x[3:])
+				} else if len(x) > 1 && x[0] == 'n' && x[1] >= '0' && x[1] <= '9' {
+					c.fname, _ = strconv.Atoi(x[1:])
+				} else {
+					c.pstate = x
+				}
 			}
 		}
 	}
@@ -391,6 +412,40 @@ var formatInfo = map[string]fmtInfo{
 	"spdx23-tag-value": {"o.spdx", true},
 	"cdx-json":         {"o.cdx.json", false},
 	"cdx-xml":          {"o.cdx.xml", false},
+}
+
+// fileNames: every spelling of an output file name the importers select by (extension tables of sbom/spdx, extension AND base-name
+// tables of sbom/cdx; both compare case-insensitively); index 0 is formatInfo's.
+var fileNames = map[string][]string{
+	"spdx23-json":      {"o.spdx.json", "Result.SPDX.JSON", "a b.spdx.json"},
+	"spdx23-yaml":      {"o.spdx.yml", "O.Spdx.Yml"},
+	"spdx23-tag-value": {"o.spdx", "sbom.SPDX"},
+	"cdx-json":         {"o.cdx.json", "bom.json", "BOM.JSON", "x.CDX.json"},
+	"cdx-xml":          {"o.cdx.xml", "bom.xml", "Bom.Xml"},
+}
+
+func (c tcase) fileName() string {
+	ns := fileNames[c.format]
+	if len(ns) == 0 {
+		return "o.out"
+	}
+	return ns[c.fname%len(ns)]
+}
+
+// sbomConfigs: the --spdx-document-name / --spdx-document-namespace / --spdx-creators / --cdx-component-name / --cdx-component-version /
+// --cdx-authors flags. They only change document metadata: the purls that come back must not depend on them.
+var sbomConfigs = []cli.Flags{
+	{},
+	{SPDXDocumentName: "my document", SPDXDocumentNamespace: "https://example.com/ns/1", SPDXCreators: "Person:Jane Doe,Tool:scalibr-1.0",
+		CDXComponentName: "component", CDXComponentVersion: "1.2.3", CDXAuthors: "a,b"},
+	{SPDXDocumentName: "<doc> & \"name\" \u00e9", SPDXCreators: "Organization:ACME: Inc.", CDXComponentName: "main", CDXComponentVersion: "", CDXAuthors: ""},
+	{SPDXDocumentNamespace: "urn:x", SPDXCreators: "Tool:a,Tool:b", CDXAuthors: ",,x"},
+	{SPDXCreators: "Person"}, // no colon
+}
+
+func (c tcase) flags() *cli.Flags {
+	f := sbomConfigs[c.cfg%len(sbomConfigs)]
+	return &f
 }
 
 func scalibrPackages(c tcase) []*extractor.Package {
@@ -466,15 +521,15 @@ func sameImage(a, b []pkgImage) bool {
 
 // export writes res in the given format into dir and returns the file's path.
 func export(res *scalibr.ScanResult, dir, format string) (string, error) {
-	fi, ok := formatInfo[format]
-	if !ok {
-		panic("unknown format " + format)
+	return exportAs(res, filepath.Join(dir, formatInfo[format].file), format, &cli.Flags{})
+}
+
+// exportAs writes res to path p through the real converters and writers, with the document configuration of the flags.
+func exportAs(res *scalibr.ScanResult, p, format string, f *cli.Flags) (string, error) {
+	if strings.Contains(format, "spdx23") { // the dispatch of cli.Flags.WriteScanResults
+		return p, spdx.Write23(converter.ToSPDX23(res, f.GetSPDXConfig()), p, format)
 	}
-	p := filepath.Join(dir, fi.file)
-	if fi.isSpdx {
-		return p, spdx.Write23(converter.ToSPDX23(res, converter.SPDXConfig{}), p, format)
-	}
-	return p, cdx.Write(converter.ToCDX(res, converter.CDXConfig{}), p, format)
+	return p, cdx.Write(converter.ToCDX(res, f.GetCDXConfig()), p, format)
 }
 
 // preparePath puts the output path of the judged export into its generated state (binary/spdx Write23 and binary/cdx Write must
@@ -512,12 +567,76 @@ func preparePath(p string, c tcase, dir string) {
 			n := fmt.Sprintf("previous-export-filler-package-%02d", i)
 			big.pkgs = append(big.pkgs, pk{name: n, version: "1.0.0", locs: []string{"some/long/path/to/" + n}, hasPurl: true, typ: "npm", pname: n, pversion: "1.0.0"})
 		}
-		if _, err := export(&scalibr.ScanResult{Inventory: inventory.Inventory{Packages: scalibrPackages(big)}}, filepath.Dir(p), c.format); err != nil {
+		if _, err := exportAs(&scalibr.ScanResult{Inventory: inventory.Inventory{Packages: scalibrPackages(big)}}, p, c.format, &cli.Flags{}); err != nil {
 			_ = os.WriteFile(p, bytes.Repeat([]byte("y"), trial()+300), 0o644) // the writer refuses this inventory: arbitrary longer bytes instead
 		}
+	case "isdir": // the output path is an existing directory: the writer must fail with an error
+		must(os.MkdirAll(p, 0o755))
+	case "nodir": // the directory of the output path does not exist (handled by the caller: p lies in a missing directory)
 	default:
 		panic("unknown output path state " + c.pstate)
 	}
+}
+
+// importDocs: documents the exporters never write but the importers accept (third-party SBOMs): SPDX packages identified by a CPE only, by a
+// CPE and a purl, by two purls, without any reference; CycloneDX components nested in components, components with a CPE only. Fixed
+// expectations (name|purl of every returned package, in order) — the importer branches behind them are outside the round trip.
+var importDocs = []struct{ file, doc, want string }{
+	{"a.spdx.json", `{"spdxVersion":"SPDX-2.3","SPDXID":"SPDXRef-DOCUMENT","name":"d","packages":[
+	 {"name":"nginx","SPDXID":"SPDXRef-1","externalRefs":[{"referenceCategory":"SECURITY","referenceType":"cpe23Type","referenceLocator":"cpe:2.3:a:nginx:nginx:1.21.1:*:*:*:*:*:*:*"}]},
+	 {"name":"openssl","SPDXID":"SPDXRef-2","externalRefs":[{"referenceCategory":"SECURITY","referenceType":"cpe23Type","referenceLocator":"cpe:2.3:a:o:o:1:*:*:*:*:*:*:*"},{"referenceCategory":"PACKAGE-MANAGER","referenceType":"purl","referenceLocator":"pkg:generic/openssl@1.1.1l"}]},
+	 {"name":"two","SPDXID":"SPDXRef-3","externalRefs":[{"referenceCategory":"PACKAGE-MANAGER","referenceType":"purl","referenceLocator":"pkg:npm/a@1"},{"referenceCategory":"PACKAGE-MANAGER","referenceType":"purl","referenceLocator":"pkg:npm/b@2"}]},
+	 {"name":"norefs","SPDXID":"SPDXRef-4"},
+	 {"name":"badpurl","SPDXID":"SPDXRef-5","externalRefs":[{"referenceCategory":"PACKAGE-MANAGER","referenceType":"purl","referenceLocator":"not a purl"}]},
+	 {"name":"rdfstyle","SPDXID":"SPDXRef-6","externalRefs":[{"referenceCategory":"PACKAGE-MANAGER","referenceType":"http://spdx.org/rdf/references/purl","referenceLocator":"pkg:gem/r@3"}]}]}`,
+		"cpe:2.3:a:nginx:nginx:1.21.1:*:*:*:*:*:*:*|-,openssl|pkg:generic/openssl@1.1.1l,b|pkg:npm/b@2,r|pkg:gem/r@3"},
+	{"bom.json", `{"bomFormat":"CycloneDX","specVersion":"1.5","components":[
+	 {"type":"library","name":"outer","version":"1","purl":"pkg:npm/outer@1","components":[
+	   {"type":"library","name":"inner","version":"2","purl":"pkg:npm/inner@2","components":[{"type":"library","name":"innermost","version":"3","purl":"pkg:npm/innermost@3"}]},
+	   {"type":"library","name":"cpeonly","version":"4","cpe":"cpe:2.3:a:x:y:4:*:*:*:*:*:*:*"}]},
+	 {"type":"library","name":"nothing","version":"5"},
+	 {"type":"library","name":"badpurl","version":"6","purl":"::"}]}`,
+		"outer|pkg:npm/outer@1,inner|pkg:npm/inner@2,innermost|pkg:npm/innermost@3,cpeonly|-"},
+	{"x.cdx.xml", `<?xml version="1.0" encoding="UTF-8"?><bom xmlns="http://cyclonedx.org/schema/bom/1.5" version="1"><components>
+	 <component type="library"><name>a</name><version>1</version><purl>pkg:pypi/a@1</purl><components><component type="library"><name>b</name><version>2</version><purl>pkg:pypi/b@2</purl></component></components></component>
+	 </components></bom>`, "a|pkg:pypi/a@1,b|pkg:pypi/b@2"},
+}
+
+func runImport(tmp string, k int) string {
+	return hx.Guard(func() string {
+		d := importDocs[k]
+		dir, err := os.MkdirTemp(tmp, "i")
+		must(err)
+		defer os.RemoveAll(dir)
+		p := filepath.Join(dir, d.file)
+		must(os.WriteFile(p, []byte(d.doc), 0o644))
+		var ex filesystem.Extractor = spdxe.New()
+		if !strings.Contains(d.file, "spdx") {
+			ex = cdxe.New()
+		}
+		info, err := os.Stat(p)
+		must(err)
+		if !ex.FileRequired(simplefileapi.New(d.file, info)) {
+			return "purls=- extra=0 st=not-required"
+		}
+		fh, err := os.Open(p)
+		must(err)
+		defer fh.Close()
+		inv, err := ex.Extract(context.Background(), &filesystem.ScanInput{FS: scalibrfs.DirFS(dir), Path: d.file, Root: dir, Info: info, Reader: fh})
+		if err != nil {
+			debugf("import %s: %v", d.file, err)
+			return "purls=- extra=0 st=read-err got=- want=" + hs(d.want)
+		}
+		var got []string
+		for _, q := range inv.Packages {
+			u := "-"
+			if pu := ex.ToPURL(q); pu != nil {
+				u = pu.String()
+			}
+			got = append(got, q.Name+"|"+u)
+		}
+		return fmt.Sprintf("purls=- extra=0 st=ok got=%s want=%s", hs(strings.Join(got, ",")), hs(d.want))
+	})
 }
 
 // run exports ONE ScanResult value first to the formats of c.prefix (as `scalibr -o a=… -o b=…` does: one result, one conversion per
@@ -525,10 +644,7 @@ func preparePath(p string, c tcase, dir string) {
 // before them (same packages in the same order with the same fields) — exporting must not modify what it exports.
 func run(tmp string, c tcase) string {
 	return hx.Guard(func() string {
-		fi, ok := formatInfo[c.format]
-		if !ok {
-			panic("unknown format " + c.format)
-		}
+		fi, known := formatInfo[c.format]
 		dir, err := os.MkdirTemp(tmp, "c")
 		must(err)
 		defer os.RemoveAll(dir)
@@ -542,32 +658,59 @@ func run(tmp string, c tcase) string {
 			}
 		}
 		// the output path in its generated state: the writers must produce the same file whatever was there before
-		p := filepath.Join(dir, fi.file)
-		preparePath(p, c, dir)
-		if c.viaCLI {
-			// the real command-line path: one Flags value, one -o item per export, WriteScanResults
+		name := c.fileName()
+		p := filepath.Join(dir, name)
+		if c.pstate == "nodir" {
+			p = filepath.Join(dir, "missing-dir", name)
+		}
+		if known {
+			preparePath(p, c, dir)
+		}
+		vf := ""
+		flags := c.flags()
+		if c.viaCLI || !known {
+			// the real command-line path: one Flags value, one -o item per export, ValidateFlags, then WriteScanResults
 			var outs []string
 			for i, pf := range c.prefix {
 				outs = append(outs, pf+"="+filepath.Join(dir, fmt.Sprintf("pre%d", i), formatInfo[pf].file))
 			}
 			outs = append(outs, c.format+"="+p)
-			err = (&cli.Flags{Output: outs}).WriteScanResults(res)
+			flags.Output = outs
+			verr := cli.ValidateFlags(flags)
+			vf = " vf=" + hx.B(verr == nil)
+			if verr != nil && known {
+				// the command line refuses these flags: nothing is exported (legitimate only for flag values that are themselves invalid)
+				debugf("ValidateFlags: %v", verr)
+				return "purls=- extra=0 st=flag-rejected mut=0" + vf
+			}
+			err = flags.WriteScanResults(res)
 			if err != nil && len(c.prefix) > 0 {
 				// WriteScanResults stops at the first -o item that fails (e.g. the known YAML writer finding in an EARLIER item): judge this
 				// format on its own item
-				err = (&cli.Flags{Output: outs[len(outs)-1:]}).WriteScanResults(res)
+				flags.Output = outs[len(outs)-1:]
+				err = flags.WriteScanResults(res)
 			}
 		} else {
-			_, err = export(res, dir, c.format)
+			_, err = exportAs(res, p, c.format, flags)
 		}
-		mut := hx.B(!sameImage(before, imageOf(res.Inventory.Packages)))
+		mut := hx.B(!sameImage(before, imageOf(res.Inventory.Packages))) + vf
+		if !known {
+			// a format name the writers do not know (stream cliflags): WriteScanResults must fail or ValidateFlags must have refused it; nothing to read back
+			_, serr := os.Stat(p)
+			return fmt.Sprintf("purls=- extra=0 st=%s mut=%s created=%s", map[bool]string{true: "write-err", false: "ok"}[err != nil], mut, hx.B(serr == nil))
+		}
 		if err != nil {
 			debugf("write %s: %v", c.format, err)
 			return "purls=- extra=0 st=write-err mut=" + mut
 		}
 		if os.Getenv("C15_DUMP") != "" { // debugging aid: the written file goes to stderr
 			b, _ := os.ReadFile(p)
-			fmt.Fprintf(os.Stderr, "----- %s\n%s\n", fi.file, b)
+			fmt.Fprintf(os.Stderr, "----- %s\n%s\n", name, b)
+		}
+		if c.trunc { // the file is cut somewhere inside: the importers must answer with an error (JSON / XML) or a result, never crash
+			if st, e := os.Stat(p); e == nil && st.Size() > 2 {
+				must(os.Truncate(p, st.Size()/2))
+			}
 		}
 		var ex filesystem.Extractor = spdxe.New()
 		if !fi.isSpdx {
@@ -575,13 +718,13 @@ func run(tmp string, c tcase) string {
 		}
 		info, err := os.Stat(p)
 		must(err)
-		if !ex.FileRequired(simplefileapi.New(fi.file, info)) {
+		if !ex.FileRequired(simplefileapi.New(name, info)) {
 			return "purls=- extra=0 st=not-required mut=" + mut
 		}
 		fh, err := os.Open(p)
 		must(err)
 		defer fh.Close()
-		inv, err := ex.Extract(context.Background(), &filesystem.ScanInput{FS: scalibrfs.DirFS(dir), Path: fi.file, Root: dir, Info: info, Reader: fh})
+		inv, err := ex.Extract(context.Background(), &filesystem.ScanInput{FS: scalibrfs.DirFS(dir), Path: name, Root: dir, Info: info, Reader: fh})
 		if err != nil {
 			debugf("read %s: %v", c.format, err)
 			return "purls=- extra=0 st=read-err mut=" + mut
@@ -964,6 +1107,11 @@ func main() {
 				defer wg.Done()
 				defer func() { <-sem }()
 				lines[i] = pending[i].line()
+				if strings.HasPrefix(pending[i].format, "import:") {
+					k, _ := strconv.Atoi(strings.TrimPrefix(pending[i].format, "import:"))
+					replies[i] = runImport(tmp, k%len(importDocs))
+					return
+				}
 				replies[i] = run(tmp, pending[i])
 			}(i)
 		}
@@ -996,6 +1144,20 @@ func main() {
 			c := tcase{stream: stream, format: f, prefix: append([]string{}, order[:k]...), pkgs: inv}
 			c.pstate = []string{"", "", "", "shorter", "longer-bytes", "longer-bytes", "longer-export", "longer-export", "ro", ""}[r.Intn(10)]
 			c.viaCLI = r.Intn(4) == 0
+			if r.Intn(3) == 0 {
+				c.cfg = r.Intn(len(sbomConfigs) - 1) // not the invalid one (cliflags stream only)
+			}
+			if r.Intn(3) == 0 {
+				c.fname = r.Intn(len(fileNames[f]))
+			}
+			switch r.Intn(40) {
+			case 0:
+				c.pstate = "isdir" // the writer must fail
+			case 1:
+				c.pstate = "nodir"
+			case 2:
+				c.trunc = f != "spdx23-yaml" && f != "spdx23-tag-value" // the importer must reject the file (JSON / XML; a cut YAML / tag-value file may still be one)
+			}
 			emit(c)
 		}
 	}
@@ -1014,6 +1176,24 @@ func main() {
 		{mkp("x", "1", false), mkp("y", "", true), mkp("z", "9", true), mkp("w", "", true), mkp("v", "5", true)},
 	} {
 		emitAll("fixed", inv)
+	}
+	for k := range importDocs {
+		emit(tcase{stream: "import", format: fmt.Sprintf("import:%d", k)})
+	}
+	// cliflags: format names the command line may be given (-o <format>=<path>). What ValidateFlags accepts, WriteScanResults must be able
+	// to write (and the file must read back); what the writers do not know must be refused by ValidateFlags and must not be written.
+	for _, f := range []string{"spdx23-xml", "cdx-yaml", "spdx23", "cdx", "spdx23-json_", "SPDX23-JSON", "cdx-json-x", "spdx23-tag-value2", "spdx22-json", "sbom", "cdx-xml=x"} {
+		emit(tcase{stream: "cliflags", format: f, viaCLI: true, pkgs: []pk{mkp("a", "1", true)}})
+	}
+	for ci := range sbomConfigs {
+		for _, f := range formats {
+			if ci == len(sbomConfigs)-1 && !strings.HasPrefix(f, "spdx23") {
+				continue // the invalid --spdx-creators value concerns the SPDX exports
+			}
+			for ni := range fileNames[f] {
+				emit(tcase{stream: "cliflags", format: f, viaCLI: true, cfg: ci, fname: ni, pkgs: []pk{mkp("a", "1", true), mkp("nopurl", "1", false), mkp("b", "2", true)}})
+			}
+		}
 	}
 	for _, inv := range fixedInventories() {
 		emitAll("fixed", inv)
